@@ -31,6 +31,8 @@ pub enum Step {
     },
     /// like `Reply`, but RFC 6242 chunked framing
     ReplyChunked { payloads: Vec<String> },
+    /// reply in whatever framing `NegotiateFraming` selected
+    ReplyNegotiated { payloads: Vec<String> },
     /// close the connection: clean (close_notify / EOF / exit 0) or abrupt (reset / kill)
     Close { abrupt: bool },
     /// keep the connection open and idle until the peer goes away (or for at most this long)
@@ -282,7 +284,20 @@ pub async fn run_script_persisting<P: PeerIo>(
                     break;
                 }
             }
-            Step::ReplyChunked { payloads } => {
+            Step::ReplyNegotiated { payloads } if !chunked => {
+                for p in payloads {
+                    let id = received
+                        .get(1 + answered)
+                        .map(|m| message_id(m))
+                        .unwrap_or_else(|| "0".into());
+                    answered += 1;
+                    if let Err(e) = io.write_unit(&reply_message(&id, p)).await {
+                        marks.error = Some(format!("write: {e}"));
+                        break;
+                    }
+                }
+            }
+            Step::ReplyChunked { payloads } | Step::ReplyNegotiated { payloads } => {
                 for p in payloads {
                     let id = received
                         .get(1 + answered)
